@@ -69,9 +69,9 @@ Proof.
   unfold M17_consent.advertise. cbv zeta.
   match goal with |- context [gather_top ?a ?b ?c ?d ?e] =>
     destruct (gather_top a b c d e) as [[tr2 r]|e0] eqn:G end.
-  2:{ intros E. inversion E; subst. clear E.
+  2:{ intros E. inversion E; subst. clear E. simpl.
       split; [reflexivity|]. split; [reflexivity|]. split; [apply prefix_refl|]. split; [auto|].
-      split; [auto|]. split; [apply prefix_refl|]. split; [auto|]. intros o []. }
+      split; [intros k N; apply get_tree_aset_other; auto|]. split; [apply prefix_refl|]. split; [auto|]. intros o []. }
   assert (TO : forall k, k <> me -> get_tree k (aset me tr2 (pseus s)) = get_tree k (pseus s)).
   { intros k N. apply get_tree_aset_other. auto. }
   destruct r as [r|].
